@@ -7,6 +7,9 @@
              with header {roots (null if nilroots), version 1} and those blocks.
    cmd / flags / observation / expect:
      filter      (sel inverse version append)   files (in out)  -> (status out post)   (arch [archout])
+                 sel = (cid ...)  [rendered one per line, LF-terminated]  or
+                       (text table mode intended): the CID list file byte for byte, cid.Parse's verdicts
+                       ((text cid) ...), mode 0 --cid-file / 1 stdin, the CIDs the harness meant
      index       (codeckind version)            files (in)      -> (status out post)   (arch)
      indexcreate (codeckind)                    files (in)      -> (status out)        (arch)
      detach      ()                             files (in)      -> (status out)        (arch codeckind storeid)
@@ -47,6 +50,14 @@ Definition v_istats (s : istats) : val :=
       VN (h_doff h); VN (h_dsize h); VN (h_ioff h); VN (idx_kind_of_codec (is_idx_codec s));
       v_cids (is_roots s)].
 
+(* the CID list of a filter case: new form (text table mode intended) or the plain list of CIDs *)
+Definition cidlist_new (v : val) : bool :=
+  match vL v with [VB _; VL _; VN _; VL _] => true | _ => false end.
+Definition v_cid_table (v : val) : list (bytes * bytes) :=
+  map (fun e => (vB (vnth 0 e), vB (vnth 1 e))) (vL v).
+Definition intended_sel (v : val) : list bytes :=
+  if cidlist_new v then vcids (vnth 3 v) else vcids v.
+
 Section Run.
   Variable hok : bytes -> bytes -> option bool.
   Variable hdrdec : bytes -> option (list bytes * N).
@@ -65,8 +76,14 @@ Section Run.
     let files := vL (vnth 2 input) in
     let f0 := vB (nth 0 files (VB [])) in
     if is_t cmd "filter" then
-      let '(ok, out) := filter_car hok hdrdec (vcids (vnth 0 flags)) (vbool (vnth 1 flags)) (vN (vnth 2 flags))
-                                   (vbool (vnth 3 flags)) f0 (vfile (nth 1 files (VT "none"%string))) in
+      let outf := vfile (nth 1 files (VT "none"%string)) in
+      let cl := vnth 0 flags in
+      let '(ok, out) :=
+        if cidlist_new cl
+        then filter_cmd hok hdrdec (v_cid_table (vnth 1 cl)) (vB (vnth 0 cl)) (vbool (vnth 1 flags))
+                        (vN (vnth 2 flags)) (vbool (vnth 3 flags)) f0 outf
+        else filter_car hok hdrdec (vcids cl) (vbool (vnth 1 flags)) (vN (vnth 2 flags))
+                        (vbool (vnth 3 flags)) f0 outf in
       VL [v_status ok; v_file out; v_post ok out]
     else if is_t cmd "index" then
       let '(ok, out) := index_car hdrdec (vN (vnth 0 flags)) (vN (vnth 1 flags)) f0 in
@@ -170,7 +187,7 @@ Definition prop_cli_with (hok : bytes -> bytes -> option bool) (hdrdec : bytes -
   | [] => VT "ok"%string
   | _ =>
     if is_t cmd "filter" then
-      let sel := vcids (vnth 0 flags) in
+      let sel := intended_sel (vnth 0 flags) in
       let inv := vbool (vnth 1 flags) in
       let ver := vN (vnth 2 flags) in
       let app := vbool (vnth 3 flags) in
